@@ -1037,7 +1037,11 @@ def provenance_sizes(repo, rep, view, P_, kappa):
       report_enforcement(rep, '_control_group_size_generator', 'geo_ratio_tolerance', e, sg.qualname)
       # the size passed in is len(T)
       break
-    if not found:
+    if not found and (kappa_mentions(sg, 'geo_ratio_tolerance') or closure_mentions(repo, sg, 'geo_ratio_tolerance')):
+      rep.undecided('R2/must-pass', '_control_group_size_generator: geo_ratio_tolerance',
+                    'geo_ratio_tolerance is consulted in _control_group_size_generator (or a helper it reaches), but no range test on the control:treatment size ratio was recognised', sg.loc())
+      ok = False
+    elif not found:
       rep.violation('R2/must-pass', sg.qualname, 'no geo-ratio filter', '_control_group_size_generator has no geo-ratio filter: the exhaustive search ignores geo_ratio_tolerance', sg.loc())
       ok = False
     good = isinstance(itC, ast.Call) and norm(itC.func) == 'self.control_group_generator'
